@@ -781,7 +781,40 @@ def nontrivial(case, verdict):
     return any(size(t) >= 2 for t in case['targets'])
 
 
+def compact(case):
+    """drop the cells no target (and no shared init) reaches; renumber"""
+    heap = case['heap']
+    live = set()
+    roots = list(case['targets'])
+    p = case['prog']
+    if isinstance(p.get('init'), dict):
+        roots.append(p['init']['shared'])
+    for r in roots:
+        reach_all(heap, r, live)
+    if len(live) == len(heap):
+        return case
+    order = sorted(live)
+    remap = {a: i for i, a in enumerate(order)}
+
+    def fix(x):
+        if isinstance(x, dict) and 'r' in x:
+            return {'r': remap[x['r']]}
+        if isinstance(x, list):
+            return [fix(y) for y in x]
+        return x
+    out = dict(case)
+    out['heap'] = [dict(heap[a], v=[fix(x) for x in heap[a]['v']]) for a in order]
+    out['targets'] = [fix(t) for t in case['targets']]
+    if isinstance(p.get('init'), dict):
+        out['prog'] = dict(p, init={'shared': fix(p['init']['shared'])})
+    return out
+
+
 def shrink(case):
+    base = {k: v for k, v in case.items() if not k.startswith('impl')}
+    c0 = compact(json.loads(json.dumps(base)))
+    if len(c0['heap']) < len(case['heap']):
+        yield c0
     for c in _shrink(case):
         yield normalise(json.loads(json.dumps(c)))
 
